@@ -247,6 +247,9 @@ void SimpleEntity::SimpleArchive(Archiver& arc)
     }
     */
 
+    // the waiters registered on this entity and its variables
+    Listener::Archive(arc);
+
     arc.ArchiveElements((float*)angles, 3);
     targetComp.Archive(arc);
 }
